@@ -117,7 +117,6 @@ var (
 	xrCRDKey    = verifsim.Key{Group: crdGK.Group, Kind: crdGK.Kind, Name: "xthings.example.org"}
 	claimCRDKey = verifsim.Key{Group: crdGK.Group, Kind: crdGK.Kind, Name: "things.example.org"}
 	lockKey     = verifsim.Key{Group: "pkg.crossplane.io", Kind: "Lock", Name: "lock"}
-	revKey      = verifsim.Key{Group: "pkg.crossplane.io", Kind: "ProviderRevision", Name: revName}
 
 	controllerActors = map[string]bool{actorClaim: true, actorXR: true, actorDef: true, actorOff: true, actorRev: true, actorUsage: true}
 
@@ -134,6 +133,7 @@ type universe struct {
 	Foreground []bool `json:"foreground"`         // per claim: compositeDeletePolicy Foreground
 	SSA        bool   `json:"ssa,omitempty"`      // claim controller uses the server-side syncer (EnableBetaClaimSSA wiring)
 	Revision   bool   `json:"revision,omitempty"` // a ProviderRevision with a Lock entry exists
+	RevKind    string `json:"revKind,omitempty"`  // kind of the package the revision belongs to: "" (Provider) or "Function"
 	Usage      bool   `json:"usage,omitempty"`    // the composition also composes a Usage (of r0, by r1)
 	Stage      int    `json:"stage"`              // how far the scripted bring-up got before the history starts (stageFull = everything running)
 	Seed       int64  `json:"seed"`
@@ -313,7 +313,8 @@ type world struct {
 	lastRun                    *verifsim.Run
 	inactiveInLockDeletes      int
 	midRan, midExcluded        int
-	recTermCRD, recTermCRDLive int // XRD reconciles that found their CRD terminating but existing (and instances alive)
+	revRecShapes               map[string]int // revision reconciles by the shape of the revision's own Lock entry
+	recTermCRD, recTermCRDLive int            // XRD reconciles that found their CRD terminating but existing (and instances alive)
 
 	// Usage bookkeeping: the last using / used resource each Usage recorded in its resourceRefs
 	lastBy, lastOf map[verifsim.Key]verifsim.Key
@@ -496,34 +497,139 @@ func newWorld(u universe, rec *verifkit.Recorder) *world {
 	return w
 }
 
+func (w *world) pkgKind() string {
+	if w.u.RevKind == "Function" {
+		return "Function"
+	}
+	return "Provider"
+}
+
+func (w *world) revKey() verifsim.Key {
+	return verifsim.Key{Group: "pkg.crossplane.io", Kind: w.pkgKind() + "Revision", Name: revName}
+}
+
+func (w *world) revGVK() schema.GroupVersionKind {
+	return pkgv1.SchemeGroupVersion.WithKind(w.pkgKind() + "Revision")
+}
+
+func (w *world) pkgGVK() schema.GroupVersionKind {
+	return pkgv1.SchemeGroupVersion.WithKind(w.pkgKind())
+}
+
+func (w *world) newRev() pkgv1.PackageRevision {
+	if w.u.RevKind == "Function" {
+		return &pkgv1.FunctionRevision{}
+	}
+	return &pkgv1.ProviderRevision{}
+}
+
+func (w *world) pkgMeta() pkgmetav1.Pkg {
+	if w.u.RevKind == "Function" {
+		return &pkgmetav1.Function{}
+	}
+	return &pkgmetav1.Provider{}
+}
+
+// lockShapes are the admissible shapes of the type fields of a Lock entry (apis/pkg/v1beta1
+// LockPackage: apiVersion, kind and the deprecated type are all optional).
+var lockShapes = []string{"current", "older-version", "older-version+type", "type-only", "kind-only", "none"}
+
+// reshapeLockEntry rewrites the type fields of the Lock entry with the given name, as if an older
+// Crossplane had written it (or, for "current", this one).
+func (w *world) reshapeLockEntry(name, kind, shape string) bool {
+	lock := w.sim.Get(lockKey)
+	if lock == nil {
+		return false
+	}
+	u := verifsim.U(lock)
+	l, _ := u.Object["packages"].([]any)
+	done := false
+	for _, e := range l {
+		m, ok := e.(map[string]any)
+		if !ok || m["name"] != name {
+			continue
+		}
+		delete(m, "apiVersion")
+		delete(m, "kind")
+		m["type"] = nil
+		switch shape {
+		case "current":
+			m["apiVersion"], m["kind"] = "pkg.crossplane.io/v1", kind
+		case "older-version":
+			m["apiVersion"], m["kind"] = "pkg.crossplane.io/v1beta1", kind
+		case "older-version+type":
+			m["apiVersion"], m["kind"], m["type"] = "pkg.crossplane.io/v1beta1", kind, kind
+		case "type-only":
+			m["type"] = kind
+		case "kind-only":
+			m["kind"] = kind
+		case "none":
+		}
+		done = true
+	}
+	if !done {
+		return false
+	}
+	return w.sim.Client("crossplane-upgrade").Update(ctx, u) == nil
+}
+
+// lockEntryShape classifies the type fields of an entry.
+func lockEntryShape(lock verifsim.Obj, name string) string {
+	l, _ := lock["packages"].([]any)
+	for _, e := range l {
+		m, ok := e.(map[string]any)
+		if !ok || m["name"] != name {
+			continue
+		}
+		av, _ := m["apiVersion"].(string)
+		k, _ := m["kind"].(string)
+		t, _ := m["type"].(string)
+		switch {
+		case av == "pkg.crossplane.io/v1" && k != "":
+			return "current"
+		case av != "" && k != "" && t != "":
+			return "older-version+type"
+		case av != "" && k != "":
+			return "older-version"
+		case t != "":
+			return "type-only"
+		case k != "":
+			return "kind-only"
+		default:
+			return "none"
+		}
+	}
+	return ""
+}
+
 // installRevision creates an installed-looking ProviderRevision: it carries the
 // revision finalizer and the REAL dependency manager has entered it in the Lock.
 func (w *world) installRevision() {
 	c := w.sim.Client(actorSetup)
-	pr := &pkgv1.ProviderRevision{}
+	pr := w.newRev()
 	pr.SetName(revName)
 	pr.SetLabels(map[string]string{"pkg.crossplane.io/package": "provider-x"})
 	pr.SetFinalizers([]string{finRevision})
-	pr.Spec.Package = revImage
-	pr.Spec.DesiredState = pkgv1.PackageRevisionActive
-	pr.Spec.Revision = 1
+	pr.SetSource(revImage)
+	pr.SetDesiredState(pkgv1.PackageRevisionActive)
+	pr.SetRevision(1)
 	w.sim.MustCreate(actorSetup, pr)
 	// An installed revision controls the objects of its package and lists them in
 	// status.objectRefs (with that list an Inactive revision is deactivated
 	// without fetching its image again).
 	owned := verifsim.U(verifsim.Obj{"apiVersion": "apiextensions.k8s.io/v1", "kind": "CustomResourceDefinition",
 		"metadata": map[string]any{"name": revOwnedCRD, "ownerReferences": []any{map[string]any{
-			"apiVersion": "pkg.crossplane.io/v1", "kind": "ProviderRevision", "name": revName, "uid": string(pr.GetUID()), "controller": true, "blockOwnerDeletion": true}}},
+			"apiVersion": "pkg.crossplane.io/v1", "kind": w.pkgKind() + "Revision", "name": revName, "uid": string(pr.GetUID()), "controller": true, "blockOwnerDeletion": true}}},
 		"spec": map[string]any{"group": "acme.example.org", "scope": "Cluster", "names": map[string]any{"kind": "Widget", "plural": "widgets"},
 			"versions": []any{map[string]any{"name": "v1", "served": true, "storage": true, "schema": map[string]any{"openAPIV3Schema": map[string]any{"type": "object"}}}}}})
 	w.sim.MustCreate(actorSetup, owned)
-	pr.Status.ObjectRefs = []xpv1.TypedReference{{APIVersion: "apiextensions.k8s.io/v1", Kind: "CustomResourceDefinition", Name: revOwnedCRD}}
+	pr.SetObjects([]xpv1.TypedReference{{APIVersion: "apiextensions.k8s.io/v1", Kind: "CustomResourceDefinition", Name: revOwnedCRD}})
 	pr.SetConditions(pkgv1.Healthy(), pkgv1.Active())
 	if err := c.Status().Update(ctx, pr); err != nil {
 		panic(fmt.Sprintf("c08: revision status: %v", err))
 	}
-	dm := revision.NewPackageDependencyManager(c, dag.NewMapDag, pkgv1.ProviderGroupVersionKind)
-	if _, _, _, err := dm.Resolve(ctx, &pkgmetav1.Provider{}, pr); err != nil {
+	dm := revision.NewPackageDependencyManager(c, dag.NewMapDag, w.pkgGVK())
+	if _, _, _, err := dm.Resolve(ctx, w.pkgMeta(), pr); err != nil {
 		panic(fmt.Sprintf("c08: Resolve for the revision under test: %v", err))
 	}
 	w.addOtherLockEntry("provider-other-aaaaaaaaaaaa", "xpkg.upbound.io/acme/provider-other:v2.0.0")
@@ -911,7 +1017,7 @@ func (w *world) resolve(des string) []verifsim.Key {
 	case des == "xrd":
 		return []verifsim.Key{xrdKey}
 	case des == "rev":
-		return []verifsim.Key{revKey}
+		return []verifsim.Key{w.revKey()}
 	case des == "crd:xr":
 		return []verifsim.Key{xrCRDKey}
 	case des == "crd:claim":
@@ -1095,10 +1201,10 @@ func (w *world) doInner(a act) string {
 		if !w.u.Revision {
 			return "disabled"
 		}
-		if o := w.sim.Get(revKey); o != nil && !verifsim.Terminating(o) && verifsim.Nested(o, "spec", "desiredState") == string(pkgv1.PackageRevisionInactive) && w.lockHas(revName) {
+		if o := w.sim.Get(w.revKey()); o != nil && !verifsim.Terminating(o) && verifsim.Nested(o, "spec", "desiredState") == string(pkgv1.PackageRevisionInactive) && w.lockHas(revName) {
 			w.inactiveInLockDeletes++ // not restored by DFS snapshots (the DFS universe has no revision)
 		}
-		return w.userDelete(revKey, pkgv1.ProviderRevisionGroupVersionKind, a.FG)
+		return w.userDelete(w.revKey(), w.revGVK(), a.FG)
 	case "del-composed": // includes "user deletes the Usage" (tmpl usage) and "the using resource" (r1)
 		if a.I >= w.u.Claims {
 			return "disabled"
@@ -1154,15 +1260,21 @@ func (w *world) doInner(a act) string {
 		// Driven: the deletion branch, and the deactivation path of an Inactive revision (which, with
 		// status.objectRefs present, returns before any image is fetched). The install path of an Active
 		// revision needs a registry; C15/C16 own it.
-		if o := w.sim.Get(revKey); !w.u.Revision || o == nil || !(verifsim.Terminating(o) || verifsim.Nested(o, "spec", "desiredState") == string(pkgv1.PackageRevisionInactive)) {
+		if o := w.sim.Get(w.revKey()); !w.u.Revision || o == nil || !(verifsim.Terminating(o) || verifsim.Nested(o, "spec", "desiredState") == string(pkgv1.PackageRevisionInactive)) {
 			return "disabled"
+		}
+		if sh := lockEntryShape(w.sim.Get(lockKey), revName); sh != "" {
+			if w.revRecShapes == nil {
+				w.revRecShapes = map[string]int{}
+			}
+			w.revRecShapes[sh]++
 		}
 		run := w.newRun(actorRev, a)
 		c := run.Client()
 		// wired as SetupProviderRevision does, minus the image backend and the runtime hooks
 		r := revision.NewReconciler(&fakeMgr{c: c, scheme: w.sim.Scheme},
-			revision.WithNewPackageRevisionFn(func() pkgv1.PackageRevision { return &pkgv1.ProviderRevision{} }),
-			revision.WithDependencyManager(revision.NewPackageDependencyManager(c, dag.NewMapDag, pkgv1.ProviderGroupVersionKind)),
+			revision.WithNewPackageRevisionFn(w.newRev),
+			revision.WithDependencyManager(revision.NewPackageDependencyManager(c, dag.NewMapDag, w.pkgGVK())),
 			revision.WithEstablisher(revision.NewAPIEstablisher(c, "crossplane-system", 1)),
 			revision.WithConfigStore(xpkg.NewImageConfigStore(c, "crossplane-system")),
 			revision.WithNamespace("crossplane-system"),
@@ -1360,18 +1472,26 @@ func (w *world) doInner(a act) string {
 		}
 		return "ok"
 	case "deactivate-rev": // the package manager (or a user) flips spec.desiredState to Inactive: a spec edit only
-		o := w.sim.Get(revKey)
+		o := w.sim.Get(w.revKey())
 		if !w.u.Revision || o == nil || verifsim.Terminating(o) || verifsim.Nested(o, "spec", "desiredState") == string(pkgv1.PackageRevisionInactive) {
 			return "disabled"
 		}
-		pr := &pkgv1.ProviderRevision{}
+		pr := w.newRev()
 		c := w.sim.Client(actorPkgMgr)
 		if err := c.Get(ctx, types.NamespacedName{Name: revName}, pr); err != nil {
 			return "refused: " + err.Error()
 		}
-		pr.Spec.DesiredState = pkgv1.PackageRevisionInactive
+		pr.SetDesiredState(pkgv1.PackageRevisionInactive)
 		if err := c.Update(ctx, pr); err != nil {
 			return "refused: " + err.Error()
+		}
+		return "ok"
+	case "lock-upgrade": // the revision's Lock entry carries the type fields an older Crossplane wrote (Obj: shape)
+		if !w.u.Revision || !w.lockHas(revName) {
+			return "disabled"
+		}
+		if !w.reshapeLockEntry(revName, w.pkgKind(), a.Obj) {
+			return "refused"
 		}
 		return "ok"
 	case "lock-churn": // another revision controller enters its package in the Lock
